@@ -30,7 +30,7 @@ RECURSIVE FilesStr(_)
 FilesStr(fs) == IF fs = <<>> THEN "" ELSE (IF Head(fs).kind = "valid" THEN Marker(Head(fs)) ELSE Head(fs).kind)
                                        \o (IF Len(fs) > 1 THEN "," ELSE "") \o FilesStr(Tail(fs))
 RECURSIVE DocsStr(_)
-DocsStr(ds) == IF ds = <<>> THEN "" ELSE Head(ds).kind \o (IF Head(ds).roid = "RO1" THEN "" ELSE "@" \o Head(ds).roid)
+DocsStr(ds) == IF ds = <<>> THEN "" ELSE Head(ds).kind \o (IF Head(ds).roid = "RO1" THEN "" ELSE "@other")
                                    \o (IF Len(ds) > 1 THEN "," ELSE "") \o DocsStr(Tail(ds))
 Sig(ev) == IF ev.cmd = "merge"
            THEN "merge[" \o DocsStr(ev.c.docs) \o "]/i=" \o ToString(ev.c.allow) \o "/n=" \o ToString(ev.c.nonstrict)
